@@ -25,10 +25,17 @@ Inductive entry := EImage | EForm.    (* add_image+draw_image: no gate; add_form
     both emission sites write  '/' ++ esc_iso n  (text/encoding.rs escape_pdf_name, modelled in
     C09.Model; C21.Model.esc_name is the same function, see Proofs.v).
 
-    Resource dictionary: the object lexer ([lex1], C09) reads the key back as one char per byte;
-    that String's own UTF-8 form is [l1_utf8] of the bytes read.  The key is the user's String iff
-    the two byte strings are equal. *)
+    Resource dictionary: the object lexer ([lex1], C09) reads the key's bytes back; the reader AFTER
+    fix_name_utf8 turns them into the String through String::from_utf8 when they are valid UTF-8 and
+    keeps the one-char-per-byte (Latin-1) view otherwise ([name_string], C09.Model).  The key is the
+    user's String iff the two byte strings are equal. *)
 Definition key_back (n : bytes) : option bytes :=
+  match lex1 (47 :: esc_iso n ++ [32]) with
+  | (TName m, 32 :: nil) => Some (name_string m)
+  | _ => None
+  end.
+(** the reader before fix_name_utf8 (always the Latin-1 view): kept for the record lemma only *)
+Definition key_back_pinned (n : bytes) : option bytes :=
   match lex1 (47 :: esc_iso n ++ [32]) with
   | (TName m, 32 :: nil) => Some (l1_utf8 m)
   | _ => None
@@ -49,6 +56,12 @@ Definition predicted (e : entry) (n : bytes) : N :=
   match e with
   | EForm => if valid_resource_name n then (if same (key_back n) n then 0 else 2) else 1
   | EImage => if same (key_back n) n && same (operand_back n) n then 0 else 2   (* key in the dictionary AND operand of Do *)
+  end.
+(** the Latin-1 reader (before fix_name_utf8) with the escaping writer: kept for the record lemma *)
+Definition predicted_latin1_pinned (e : entry) (n : bytes) : N :=
+  match e with
+  | EForm => if valid_resource_name n then (if same (key_back_pinned n) n then 0 else 2) else 1
+  | EImage => if same (key_back_pinned n) n && same (operand_back n) n then 0 else 2
   end.
 (** the writer before fix_name_escape (names raw): kept for the record lemma *)
 Definition predicted_pinned (e : entry) (n : bytes) : N :=
